@@ -3,16 +3,39 @@ package c02
 import (
 	"fmt"
 	"os"
+	"strings"
 	"testing"
+	"time"
+
+	"github.com/robertkrimen/otto/parser"
 )
 
 func TestDevList(t *testing.T) {
-	if os.Getenv("C02_DEV") == "" {
+	if os.Getenv("C02_DEV") != "list" {
 		t.Skip()
 	}
 	fns, e := discover()
 	fmt.Println(e, len(fns))
 	for _, f := range fns {
 		fmt.Printf("%s | %s | %s | %s\n", f.Path, f.Owner, f.Name, f.Accessor)
+	}
+}
+
+func TestDevParseScale(t *testing.T) {
+	if os.Getenv("C02_DEV") != "scale" {
+		t.Skip()
+	}
+	for _, n := range []int{100, 200, 400, 800, 1600} {
+		src := strings.Repeat(os.Getenv("C02_OPEN"), n) + strings.Repeat(os.Getenv("C02_CLOSE"), n-1)
+		s := time.Now()
+		_, err := parser.ParseFile(nil, "", src, 0)
+		e := ""
+		if err != nil {
+			e = err.Error()
+			if len(e) > 80 {
+				e = e[:80]
+			}
+		}
+		fmt.Println(n, time.Since(s), e)
 	}
 }
